@@ -29,6 +29,7 @@ EXPECTED_COUNTERS = ['kind:workchain', 'probe:late_failing_callback_after_termin
                      'probe:resume_on_terminated', 'probe:step_on_terminated', 'probe:program_callback_fails_late']
 KINDS = ['pause', 'play', 'kill', 'resume', 'fail', 'callback']
 PROGRAM_CFG = {
+    'uncopyable_outputs': True,
     'max_steps': 4,
     'rets': ['value', 'value', 'stop', 'unsuccessful', 'kill', 'raise'],
     'effects': ['out', 'status', 'callsoon', 'callsoon'],
